@@ -336,7 +336,9 @@ class PermutationVariable(Variable):
         return lb.tolist(), ub.tolist()
 
     def correct(self, value: tuple | list | np.ndarray) -> list[int]:
-        return np.argsort(value).tolist()
+        # rank of each key (stable for ties): an index permutation is left unchanged, so correction is idempotent and
+        # the position that is evaluated is the one that is later decoded
+        return np.argsort(np.argsort(value, kind="stable"), kind="stable").tolist()
 
     def decode(self, value: tuple | list | np.ndarray) -> Any:
         value = self.correct(value)
